@@ -123,11 +123,11 @@ def register_props(PROPS, g):
                     "trusted_extra": ["os.ReadDir is abstracted as a partial map from directory paths to entry lists"]}
     PROPS["C05"] = {"components": ["glob"], "oracle": ["C05"], "decode": None,
                     "nontrivial": ("distinct_nontrivial", "(tree, pattern) cases with at least one matching non-hidden entry"),
-                    "rule": "real directory trees: every subset of a pool of 11 (thorough: 13) candidate paths x 23 patterns of the modelled fragment "
-                            "(expanded through parser -> file.New -> SpokFile.ExpandGlobs, twice) and 4 patterns with alternation/classes/'?' compared with doublestar.Match only; "
-                            "results compared as sets with the extracted walker model, which the driver also compares with glob_spec",
+                    "rule": "real directory trees: every subset of a pool of 11 (thorough: 13) candidate paths x 34 patterns (literal, *, ?, classes, alternation incl. nested and across a slash, **) "
+                            "(expanded through parser -> file.New -> SpokFile.Run of three tasks sharing the pattern); results compared as sets with the extracted walker model, which the driver also compares with the "
+                            "executable specification, and with an independent reference matcher of the harness; on a quarter of the cases: unchanged re-run, edit of a non-denoted file, edit of a denoted file",
                     "assumptions": ["directory listings are duplicate-free (os.ReadDir); results are compared as sets (a pattern like **/** makes the walker report an entry twice)",
-                                    "fragment: segments of literal bytes and '*', or '**'; classes, '?', alternation, escapes are outside the theorem and compared with the implementation's own Match only",
+                                    "patterns: literal bytes, '*', '?', classes, alternation, '**'; backslash escapes and empty segments are outside the theorem; names and patterns are valid UTF-8 (the matcher compares decoded runes, the model bytes)",
                                     "a trailing '**' is anchored at a directory (a file named like the directory part matches nothing), as GlobWalk does"],
                     "trusted_extra": ["bmatcuk/doublestar GlobWalk is modelled (transliterated for the fragment), not verified"]}
     rp_rule = ("the built spok binary in a sandbox HOME/project: random spokfiles of 1-5 tasks (dependency chains, optional file dependency, docstrings, a task named default) x 0-4 commands "
